@@ -21,10 +21,13 @@ ALPH = {
     "fine": alphabet(prices=(299.99999, 300.0, 300.000005, 300.00001), vols=(1, 2), ttls=(None,), mttls=(None,), dead=(), cancels=2),
     "quick_xc": alphabet() + [("XC",)],
     "reduced_xc": alphabet(vols=(1,), mvols=(1,), ttls=(None,), mttls=(None,), dead=(), cancels=2) + [("XC",)],
+    # tick 0.25 / 2.5: grid points whose decimal expansion ends in 5 (100.75, 107.5) and off-grid prices around them
+    "quarter": alphabet(prices=(100.2, 100.22, 100.7, 100.76, 100.8), vols=(1, 2), ttls=(None,), mttls=(None,), dead=(), cancels=2),
+    "t2_5": alphabet(prices=(105.0, 106.2, 107.5, 107.6, 108.0), vols=(1, 2), ttls=(None,), mttls=(None,), dead=(), cancels=2),
     "low": alphabet(prices=(0.4, 1, 2), vols=(1, 2), ttls=(None,), mttls=(None,), dead=(), cancels=2),
 }
 SEEDS_Q = ["two_sided_no_trade", "quoted_while_off", "deep", "ladder_buy", "ladder_sell", "partial", "crossed_off", "crossed_tie", "crossed_flip", "crossed_flip_mirror", "mo_one", "mo_both",
-           "mo_both_eq", "expiring", "same_expiry", "mixed_ttl", "multi_fill", "chunk4", "halftick", "step99"]
+           "mo_both_eq", "mo_both_ttl_behind", "expiring", "same_expiry", "mixed_ttl", "multi_fill", "chunk4", "halftick", "step99"]
 
 
 KEY_SEEDS = ["two_sided_no_trade", "quoted_while_off", "ladder_buy", "ladder_sell", "multi_fill", "mo_both", "expiring", "same_expiry", "mixed_ttl", "crossed_tie"]
@@ -42,6 +45,7 @@ def plan(tier, d0=None, dseed=None):
                 p.append((s, mode, dseed, "half" if s == "halftick" else "quick"))
         for s in KEY_SEEDS:
             p.append((s, "free", dseed + 1, "quick"))
+        p.append(("mo_both_ttl_behind", "cont", dseed + 1, "quick"))
         for mode in ("cont", "free"):
             p.append(("index", mode, dseed, "quick_xc"))
             p.append(("index_component_stopped", mode, dseed, "quick_xc"))
@@ -51,6 +55,8 @@ def plan(tier, d0=None, dseed=None):
             p.append(("empty", mode, d0 - 1, "extreme"))
             p.append(("tick01", mode, d0 - 1, "dec01"))
             p.append(("tick1e5", mode, d0 - 1, "fine"))
+            p.append(("quartertick", mode, d0 - 1, "quarter"))
+            p.append(("tick2_5", mode, d0 - 1, "t2_5"))
     else:
         d0 = d0 or 5
         dseed = dseed or 3
@@ -62,6 +68,8 @@ def plan(tier, d0=None, dseed=None):
             p.append(("empty", mode, d0 - 1, "extreme"))
             p.append(("tick01", mode, d0 - 1, "dec01"))
             p.append(("tick1e5", mode, d0 - 1, "fine"))
+            p.append(("quartertick", mode, d0 - 1, "quarter"))
+            p.append(("tick2_5", mode, d0 - 1, "t2_5"))
         for mode in ("cont", "free"):
             p.append(("index", mode, dseed, "quick_xc"))
             p.append(("index_component_stopped", mode, dseed, "quick_xc"))
@@ -73,6 +81,7 @@ def plan(tier, d0=None, dseed=None):
                     p.append((s, mode, dseed - 1, "rich"))
         for s in KEY_SEEDS:
             p.append((s, "free", dseed + 1, "quick"))
+        p.append(("mo_both_ttl_behind", "cont", dseed + 1, "quick"))
     return p
 
 
